@@ -1184,6 +1184,8 @@ class Folder:
             return _c.defaultdict({"list": list, "set": set, "dict": dict, "int": int}[dotted(args[0])])
         if name in ("functools.partial", "partial") and args:
             return _Partial(self.fold(args[0]), [self.fold(a) for a in args[1:]], {k.arg: self.fold(k.value) for k in e.keywords if k.arg})
+        if name in ("time.monotonic", "time.time", "time.perf_counter", "time.process_time", "monotonic", "perf_counter") and not args and name.split(".")[0] not in self.env:
+            return 0.0  # the clock: no analysed property depends on elapsed time (durations are only logged)
         if name in ("math.lcm", "math.gcd"):
             vals = [self.fold(a) for a in args]
             return getattr(math, name.split(".")[1])(*vals)
@@ -1333,12 +1335,25 @@ class Folder:
                 from .absint import _RepoShim, construct
 
                 return construct(_RepoShim(self.repo), r1, *[self.fold(a) for a in args], hook=self.hook, **{k.arg: self.fold(k.value) for k in e.keywords if k.arg})
+        if isinstance(e.func, ast.Name) and isinstance(self.env.get(e.func.id), (ClassInfo, _TypeOf)):
+            # a local name bound to a class of the repository (`cls(...)` in a classmethod, `ty = A if c else B; ty(...)`)
+            return call_value(self, self.env[e.func.id], fold_starred(self, args), {k.arg: self.fold(k.value) for k in e.keywords if k.arg})
         if isinstance(e.func, (ast.Call, ast.Subscript, ast.IfExp)):
             # the callee is itself computed: getattr(x, name)(...), table[key](...), (f if c else g)(...)
             fv = self.fold(e.func)
             if isinstance(fv, (_Lambda, _LocalFn, _Partial)) or type(fv).__name__ == "_BoundMethod" or (isinstance(fv, Abstract) and callable(fv)):
                 return call_value(self, fv, [self.fold(a) for a in args], {k.arg: self.fold(k.value) for k in e.keywords if k.arg})
         raise Unfoldable("call " + unparse(e))
+
+
+def fold_starred(f: "Folder", args: Any) -> list:
+    out: list = []
+    for a in args:
+        if isinstance(a, ast.Starred):
+            out.extend(list(f.fold(a.value)))
+        else:
+            out.append(f.fold(a))
+    return out
 
 
 class ARange:
